@@ -191,26 +191,41 @@ impl Check for C10 {
         let server_active_before_idle = w.server_client_active(&caddr);
         let idle_step = period.max(20_000);
         let mut idle_checked = false;
-        // lower bound of the RTO that paces each endpoint's sync / keepalive frames: max(4 * RTT estimate, 2 * s / X)
-        let rto_of = |rtt: Option<f64>, rate: Option<f64>| -> u64 {
+        // the RTO that paces each endpoint's sync / keepalive frames: the value the rate controller last computed
+        // (it is refreshed only by feedback or by a no-feedback expiry), and never below max(4 * RTT estimate, 2 * s / X)
+        let rto_of = |rtt: Option<f64>, st: Option<uflow::verif::VerifStats>| -> u64 {
             let a = rtt.map_or(0.0, |r| 4.0 * r);
-            let b = rate.map_or(0.0, |x| 2.0 * 1472.0 / x.max(1.0));
-            (a.max(b) * 1e6) as u64
+            let b = st.as_ref().map_or(0.0, |v| 2.0 * 1472.0 / v.send_rate.max(1.0));
+            let cached = st.as_ref().and_then(|v| v.rto_ms).unwrap_or(0) * 1000;
+            ((a.max(b) * 1e6) as u64).max(cached)
         };
         let sample_rto = |w: &World| -> (u64, u64) {
             (
-                w.clients[ci].client.as_ref().map_or(0, |cl| rto_of(cl.rtt_s(), cl.verif_stats().map(|v| v.send_rate))),
-                w.server.as_ref().and_then(|s| s.client(&caddr).map(|rc| rto_of(rc.borrow().rtt_s(), rc.borrow().verif_stats().map(|v| v.send_rate)))).unwrap_or(0),
+                w.clients[ci].client.as_ref().map_or(0, |cl| rto_of(cl.rtt_s(), cl.verif_stats())),
+                w.server.as_ref().and_then(|s| s.client(&caddr).map(|rc| rto_of(rc.borrow().rtt_s(), rc.borrow().verif_stats()))).unwrap_or(0),
             )
         };
         // largest value seen from the start of the idle phase on (the allowed rate can keep falling while idle)
         let (mut rto_client_us, mut rto_server_us) = sample_rto(&w);
+        // The known finding (D23) is the pacing of keepalives by an RTO that is already long when the idle phase
+        // begins (earlier loss, multi-second RTT samples), or that keeps growing because the endpoint never obtained
+        // an RTT estimate (every expiry halves the rate in that state). An endpoint *with* an estimate must not
+        // lose rate while idle beyond the recover rate (RFC 5348 4.4), so for it the value at the start counts.
+        let rto_start = (rto_client_us, rto_server_us);
+        let has_rtt_at_idle_start = (
+            w.clients[ci].client.as_ref().map_or(false, |cl| cl.rtt_s().is_some()),
+            w.server.as_ref().and_then(|s| s.client(&caddr).map(|rc| rc.borrow().rtt_s().is_some())).unwrap_or(false),
+        );
         if c.idle_s > 0 && client_active_before_idle && server_active_before_idle {
             w.links[ci].blackout_until_us = [0, 0];
             let end = w.now_us + c.idle_s as u64 * 1_000_000;
             while w.now_us < end {
                 tick(&mut w, idle_step, true, true, &mut steps_c, &mut steps_s);
                 let (a, b) = sample_rto(&w);
+                if std::env::var_os("VERIF_DEBUG").is_some() && (w.now_us / idle_step) % 250 == 0 {
+                    let st = w.server.as_ref().and_then(|s| s.client(&caddr).map(|rc| (rc.borrow().verif_stats(), rc.borrow().rtt_s())));
+                    eprintln!("t={} server {:?} client {:?}", w.now_us, st, w.clients[ci].client.as_ref().map(|cl| (cl.verif_stats(), cl.rtt_s())));
+                }
                 rto_client_us = rto_client_us.max(a);
                 rto_server_us = rto_server_us.max(b);
             }
@@ -338,6 +353,20 @@ impl Check for C10 {
                 return CaseResult { violation: Some(v), nontrivial: true, classes };
             }
         }
+        if std::env::var_os("VERIF_DEBUG").is_some() {
+            eprintln!("idle starts at {} us; client events {:?}", t_idle_start, w.clients[ci].events);
+            eprintln!("server events {:?}", w.server_events);
+            let mut last = (0u64, String::new(), 0u32);
+            for r in w.wire.iter() {
+                let kind = match Frame::read(&r.bytes) { Some(Frame::DataFrame(_)) => "data", Some(Frame::SyncFrame(_)) => "sync", Some(Frame::AckFrame(_)) => "ack", Some(Frame::DisconnectFrame(_)) => "disc", Some(Frame::DisconnectAckFrame(_)) => "discack", Some(_) => "hs", None => "?" };
+                let who = if r.from == caddr { "c" } else { "s" };
+                let tag = format!("{who}:{kind}");
+                if tag == last.1 && r.t_us - last.0 < 100_000 { last.2 += 1; last.0 = r.t_us; continue; }
+                if last.2 > 0 { eprintln!("    ... {} more", last.2); }
+                eprintln!("  t={} {tag} len={}", r.t_us, r.bytes.len());
+                last = (r.t_us, tag, 0);
+            }
+        }
         // ---- (c) keepalive ---------------------------------------------------------------------------
         if idle_checked {
             let gap = max_gap(&steps_c, t_idle_start).max(max_gap(&steps_s, t_idle_start)).max(idle_step);
@@ -371,7 +400,7 @@ impl Check for C10 {
                     // (the acknowledgement that answers a keepalive is subject to the answering side's credit, i.e.
                     // to its rate, as well: take the larger of the two)
                     let _ = (ka_peer, ka_self, which);
-                    let pace = rto_client_us.max(rto_server_us);
+                    let pace = (if has_rtt_at_idle_start.0 { rto_start.0 } else { rto_client_us }).max(if has_rtt_at_idle_start.1 { rto_start.1 } else { rto_server_us });
                     let comfortable_rto = 3 * pace.max(iv as u64 * 1000).max(2_000_000) + 4 * (lat + gap) <= timeout_ms as u64 * 1000;
                     if comfortable {
                         classes.push("keepalive_clause_checked");
